@@ -160,6 +160,7 @@ def _purge_caches():
     I._CACHE.clear()
     L._cache.clear()
     S._memo.clear()
+    S._must_memo.clear()
     S._in_progress.clear()
     import gc
     gc.collect()
